@@ -1620,6 +1620,7 @@ pub fn dispatch(sc: &Value) -> Value {
         "acquire_lock" => crate::synchronisation::room_locking_service::verif_hook::replay_acquire_lock(sc),
         "handshake" => crate::synchronisation::peer_inbound_service::verif_hook::replay_handshake(sc),
         "version_selection" => replay_version_selection(sc),
+        "lock_service" => crate::synchronisation::room_locking_service::verif_hook::replay_lock_service(sc),
         "invite_consumption" => crate::network::peer_manager::verif_hook::replay_invite_consumption(sc),
         "data_model_update" => replay_data_model_update(sc),
         "c12_deletion" => replay_c12_deletion(sc),
